@@ -273,9 +273,16 @@ class Ctx:
             self.missing(rule, callee_rx, inst, "expected at least %d caller(s) of %s, found %d" % (min_callers, callee_rx, len(cs)))
             return False
         ok = True
+        # closures of a new helper that the normal form inlined into its callers act on behalf of those callers
+        inl = {}
+        for k, f in self.prog.fns.items():
+            for h in getattr(f, "inlined", ()) or ():
+                inl.setdefault(h, set()).add(k.split("::{closure#")[0])
         for gid in sorted(cs):
             base = gid.split("::{closure#")[0]
             if gid in allowed or base in allowed:
+                continue
+            if base not in self.prog.fns and base in inl and all(b in allowed for b in inl[base]):
                 continue
             g, pt, cid = cs[gid][0]
             self.ob(rule, callee_rx, inst + "/" + gid, False, "%s: %s is called from %s, which is outside the allowed set" % (why, cid, gid), g.where(pt))
